@@ -187,7 +187,7 @@ func main() {
 		}
 		// does any clause of this contract carry a wanted tag?
 		all := append(append([]string{}, con.Tags...), con.Safety...)
-		for _, cs := range [][]*Clause{con.Requires, con.Ensures, con.Invariants, con.Calls, con.Boundary} {
+		for _, cs := range [][]*Clause{con.Requires, con.Ensures, con.Invariants, con.Calls, con.Boundary, con.RgEnsures, con.RgCalls} {
 			for _, c := range cs {
 				all = append(all, c.Tags...)
 			}
@@ -217,7 +217,35 @@ func main() {
 		if ft.failed != "" {
 			out.Obligations = append(out.Obligations, &OblResult{Fn: key, Name: "engine:translate", Kind: "engine", Tags: all, Status: "error", Src: ft.failed})
 		}
-		for _, o := range ft.obls {
+		obls := ft.obls
+		var rgft *FT
+		if len(con.RgEnsures)+len(con.RgCalls) > 0 {
+			rgft = e.VerifyRG(fn, con)
+			if rgft.failed != "" {
+				out.Obligations = append(out.Obligations, &OblResult{Fn: key, Name: "engine:translate-rg", Kind: "engine", Tags: all, Status: "error", Src: rgft.failed})
+			}
+			for k := range rgft.trusted {
+				fr.Trusted = append(fr.Trusted, "rg tier: "+k)
+			}
+		}
+		type fo struct {
+			ft *FT
+			o  *Obligation
+		}
+		var fos []fo
+		for _, o := range obls {
+			fos = append(fos, fo{ft, o})
+		}
+		if rgft != nil {
+			for _, o := range rgft.obls {
+				if o.Kind == "vacuity" {
+					continue
+				}
+				fos = append(fos, fo{rgft, o})
+			}
+		}
+		for _, x := range fos {
+			ft, o := x.ft, x.o
 			if !wanted(o.Tags) {
 				continue
 			}
